@@ -239,7 +239,16 @@ func runC08(in sx.SX) (sx.SX, string) {
 		return variants.VariantFromInteger(-999), nil
 	}))
 	coll := functions.NewDefaultFunctionCollection()
+	// removing other functions (registered before and after it) does not disturb the lookup of this one
+	for _, gone := range []string{"Rnd", "TimeSpan", "Contains"} {
+		if !strings.EqualFold(gone, name) {
+			coll.RemoveByName(gone)
+		}
+	}
 	f := coll.FindByName(name)
+	if f != nil && !strings.EqualFold(f.Name(), name) {
+		return sx.L(sx.I(-998)), "FindByName(" + name + ") after removing other functions returned the function " + f.Name()
+	}
 	if coll.FindByName("zz_user") != nil {
 		return sx.L(sx.I(-998)), "a function added to one default collection shows up in a new default collection"
 	}
